@@ -325,7 +325,7 @@ func instrument(out string) []Site {
 
 			rel = strings.TrimPrefix(rel, "cqos/")
 
-			rw := &rewriter{fset: p.Fset, info: p.TypesInfo, file: file, rel: rel, skip: map[ast.Node]bool{}, selBlocks: map[ast.Node]*ast.SelectStmt{}}
+			rw := &rewriter{fset: p.Fset, info: p.TypesInfo, file: file, rel: rel, skip: map[ast.Node]bool{}, inner: map[ast.Node]ast.Stmt{}}
 			rw.run()
 
 			if !rw.changed {
@@ -406,7 +406,7 @@ type rewriter struct {
 	changed   bool
 	tmp       int
 	skip      map[ast.Node]bool
-	selBlocks map[ast.Node]*ast.SelectStmt
+	inner     map[ast.Node]ast.Stmt // our wrapping block -> the statement a label must stay on
 	sites     []Site
 }
 
@@ -472,6 +472,96 @@ func (rw *rewriter) isChan(e ast.Expr) bool {
 	return ok
 }
 
+func (rw *rewriter) isMap(e ast.Expr) bool {
+	t := rw.info.TypeOf(e)
+	if t == nil {
+		return false
+	}
+
+	_, ok := t.Underlying().(*types.Map)
+
+	return ok
+}
+
+// rangeOverMap makes the iteration order of a map a seeded decision:
+//
+//	for k, v := range m { body }
+//
+// becomes
+//
+//	{ simP := m; for _, k := range simrt.MapKeys(site, simP) { v, ok := simP[k]; if !ok { continue }; body } }
+//
+// The map expression is evaluated once (as in Go), keys deleted during the iteration
+// are skipped (as in Go), keys added during it are not produced (which Go permits).
+func (rw *rewriter) rangeOverMap(n *ast.RangeStmt) ast.Stmt {
+	site := rw.site(n, "maprange")
+	m := rw.fresh("P")
+	ok := rw.fresh("K")
+
+	isBlank := func(e ast.Expr) bool {
+		if e == nil {
+			return true
+		}
+
+		id, isID := e.(*ast.Ident)
+
+		return isID && id.Name == "_"
+	}
+
+	var (
+		loopKey ast.Expr
+		head    []ast.Stmt
+	)
+
+	assign := n.Tok == token.ASSIGN
+
+	switch {
+	case assign || isBlank(n.Key):
+		loopKey = rw.fresh("Y")
+	default:
+		loopKey = n.Key
+	}
+
+	idx := &ast.IndexExpr{X: m, Index: loopKey}
+	skip := &ast.IfStmt{
+		Cond: &ast.UnaryExpr{Op: token.NOT, X: ok},
+		Body: &ast.BlockStmt{List: []ast.Stmt{&ast.BranchStmt{Tok: token.CONTINUE}}},
+	}
+
+	switch {
+	case isBlank(n.Value) || assign:
+		vt := ast.Expr(ast.NewIdent("_"))
+		if assign && !isBlank(n.Value) {
+			vt = rw.fresh("W")
+		}
+
+		head = append(head, &ast.AssignStmt{Lhs: []ast.Expr{vt, ok}, Tok: token.DEFINE, Rhs: []ast.Expr{idx}}, skip)
+
+		if assign && !isBlank(n.Key) {
+			head = append(head, &ast.AssignStmt{Lhs: []ast.Expr{n.Key}, Tok: token.ASSIGN, Rhs: []ast.Expr{loopKey}})
+		}
+
+		if assign && !isBlank(n.Value) {
+			head = append(head, &ast.AssignStmt{Lhs: []ast.Expr{n.Value}, Tok: token.ASSIGN, Rhs: []ast.Expr{vt}})
+		}
+	default:
+		head = append(head, &ast.AssignStmt{Lhs: []ast.Expr{n.Value, ok}, Tok: token.DEFINE, Rhs: []ast.Expr{idx}}, skip)
+	}
+
+	mapExpr := n.X
+
+	n.Key = ast.NewIdent("_")
+	n.Value = loopKey
+	n.Tok = token.DEFINE
+	n.X = call("MapKeys", site, m)
+	n.Body = &ast.BlockStmt{List: append(head, n.Body.List...)}
+
+	blk := &ast.BlockStmt{List: []ast.Stmt{define(m, mapExpr), n}}
+	rw.inner[blk] = n
+
+	return blk
+}
+
 func (rw *rewriter) run() {
 	astutil.Apply(rw.file, rw.pre, rw.post)
 }
@@ -532,6 +622,8 @@ func (rw *rewriter) post(c *astutil.Cursor) bool {
 	case *ast.RangeStmt:
 		if rw.isChan(n.X) {
 			c.Replace(rw.rangeOverChan(n))
+		} else if rw.isMap(n.X) {
+			c.Replace(rw.rangeOverMap(n))
 		}
 	case *ast.CallExpr:
 		rw.callExpr(c, n)
@@ -539,15 +631,16 @@ func (rw *rewriter) post(c *astutil.Cursor) bool {
 		c.Replace(rw.goStmt(n))
 	case *ast.SelectStmt:
 		blk := rw.selectStmt(n)
-		rw.selBlocks[blk] = n
+		rw.inner[blk] = n
 		c.Replace(blk)
 	case *ast.LabeledStmt:
-		// a label on a select must stay on the select (break L), not on our block
+		// a label must stay on the select / loop itself (break L, continue L), not on
+		// the block we wrapped it in
 		if blk, ok := n.Stmt.(*ast.BlockStmt); ok {
-			if sel := rw.selBlocks[blk]; sel != nil {
+			if in := rw.inner[blk]; in != nil {
 				for i, st := range blk.List {
-					if st == ast.Stmt(sel) {
-						blk.List[i] = &ast.LabeledStmt{Label: n.Label, Stmt: sel}
+					if st == in {
+						blk.List[i] = &ast.LabeledStmt{Label: n.Label, Stmt: in}
 					}
 				}
 
